@@ -30,7 +30,7 @@ func genOpts(r *mon.Rand, cfg mon.Config, mode gspec.Mode) gspec.GenOpts {
 func TestCheck(t *testing.T) {
 	cfg := mon.Load(ID)
 	rep := mon.NewReporter(cfg, "exploration",
-		"generated acyclic specs in graph-AllPredecessor mode and as Workflows (control-only, data-only and combined dependencies, field mappings, single/multi branches, converging branches, nested graphs); for every spec ALL combinations of branch outcomes are forced when there are <=64 (sampled otherwise); each run (Invoke and Stream) is compared with an independent all-predecessor reference interpreter: result, at-most-once, executed ⊆ triggered, ancestors of END executed, input = merge of the routed data predecessors, body entry after every control predecessor returned; a real dagChannel (hook VerifNewDAGChannel) is driven with runner-feasible report sequences next to a model channel; a sub-workload adds nodes without any predecessor; a sub-workload of hand-built specs (edge_branch_test.go) puts a plain edge AND a branch between the same pair of nodes (x with 0-2 further predecessors that finish / are skipped / select it, one or two branches on a, x feeding END or not, nested, all four paradigms) and judges it with a dedicated oracle (a executed => x executed exactly once) next to the reference. Non-trivial: the graph has a branch and the outcome vector skips at least one node while another still runs; distinct = distinct (spec, outcome vector) digests.",
+		"generated acyclic specs in graph-AllPredecessor mode and as Workflows (control-only, data-only and combined dependencies, field mappings, single/multi branches, converging branches, nested graphs); for every spec ALL combinations of branch outcomes are forced when there are <=64 (sampled otherwise); each run (Invoke and Stream) is compared with an independent all-predecessor reference interpreter: result, at-most-once, executed ⊆ triggered, ancestors of END executed, input = merge of the routed data predecessors, body entry after every control predecessor returned; a real dagChannel (hook VerifNewDAGChannel) is driven with runner-feasible report sequences next to a model channel; a sub-workload adds nodes without any predecessor; a sub-workload of hand-built specs (edge_branch_test.go) puts a plain edge AND a branch between the same pair of nodes (x with 0-2 further predecessors that finish / are skipped / select it, one or two branches on a, x feeding END or not, nested, all four paradigms) and judges it with a dedicated oracle (a executed => x executed exactly once) next to the reference; a sub-workload of hand-built Workflows (keyed_zero_test.go) whose node x is fed only by predecessors that a branch skips or takes, with or without an input key, field mappings (to the key, below it, two predecessors) and static values at PRNG-chosen paths (another key, below the input key, both, nested), x an invoke or transform lambda, in all four paradigms: x must run on the zero value merged with the static values. Non-trivial: the graph has a branch and the outcome vector skips at least one node while another still runs; distinct = distinct (spec, outcome vector) digests.",
 		[]string{"node bodies deterministic", "nodes that are not ancestors of END may or may not have started when the run returns (only ⊆ is required for them)", "a plain edge plus a branch between the same pair of nodes: the edge routes unconditionally, the branch can only add routes (any-predecessor mode behaves the same; only the hand-built sub-workload generates the shape)", "shapes the statement does not define are not generated: data-only edges from non-ancestors, nodes fed only by data-only inputs"},
 		150)
 	defer func() {
@@ -43,6 +43,7 @@ func TestCheck(t *testing.T) {
 	rep.Cases(n, func(idx int64, rng *mon.Rand) {
 		if idx%10 == 9 {
 			keyedZeroCase(ctx, rep, rng.Sub("keyedzero"))
+			keyedStaticCase(ctx, rep, rng.Sub("keyedstatic"))
 		}
 		switch {
 		case idx%10 == 9:
